@@ -248,6 +248,9 @@ def run(ctx) -> None:
     rule_Y6(ctx)
     ctx.rules_run.append("Y8")
     rule_Y8(ctx)
+    from .c03 import rule_P11
+    ctx.rules_run.append("P11")
+    rule_P11(ctx)             # user comments cannot break the generated module
     rule_P3(ctx, "pydantic")
     from . import presence
     ctx.rules_run.append("D1")
